@@ -301,7 +301,11 @@ fn check_nested(sub: &str, pos: usize) -> CaseResult {
         1 => format!("<svg><rect wh=\"5\"/>{sub}<rect xy=\"^|h\" wh=\"5\"/></svg>"),
         2 => format!("<svg><g id=\"k\"><rect wh=\"5\"/>{sub}</g></svg>"),
         3 => format!("<svg><loop count=\"1\">{sub}</loop></svg>"),
-        _ => format!("<rect wh=\"5\"/>{sub}"),
+        4 => format!("<rect wh=\"5\"/>{sub}"),
+        5 => format!("<svg><defaults><svg fill=\"red\" wh=\"3\"/><rect fill=\"blue\"/></defaults>{sub}</svg>"),
+        6 => format!("<if test=\"1\">{sub}</if>"),
+        7 => format!("<svg><defs>{sub}</defs></svg>"),
+        _ => format!("<svg><a href=\"x\">{sub}</a><rect wh=\"2\"/></svg>"),
     };
     let sub_evs = xmlref::parse(sub.as_bytes(), Mode::Document).expect("generated subtree is well-formed");
     let mut viol = None;
@@ -408,9 +412,13 @@ pub fn run(tier: Tier) -> i32 {
         if !a.starts_with("class=") {
             subs.push(wrap(&format!(" {a} width=\"{{{{width}}}}\" class=\"tpl {{{{kind}}}}\" data-e=\"{{{{1 +}}}} {{{{#missing~w}}}} $nope\""), "t"));
         }
+        // the embedded <svg> written as an empty element
+        subs.push(format!("<svg xmlns=\"{NS}\" {a}/>"));
+        subs.push(format!("<svg {a} xmlns=\"{NS}\" width=\"5\" height=\"5\"/>"));
     }
-    let st = run_space(subs.len() * 5, |i| check_nested(&subs[i / 5], i % 5));
-    rep.sample(json!({"leg": "nested", "sub": subs[subs.len() / 2], "positions": 5}));
+    subs.push(format!("<svg xmlns=\"{NS}\"/>"));
+    let st = run_space(subs.len() * 9, |i| check_nested(&subs[i / 9], i % 9));
+    rep.sample(json!({"leg": "nested", "sub": subs[subs.len() / 2], "positions": 9}));
     rep.absorb("nested", st);
     rep.set("configurations", json!(cfgs.iter().map(|c| c.0.clone()).collect::<Vec<_>>()));
     rep.assume("no DTD processing: only predefined entities and character references occur; literal white space in attribute values is normalised by the reader on both sides (XML 3.3.3); character references to tab/newline are in the alphabet and must survive");
